@@ -358,6 +358,8 @@ class ExprMixin:
         s = self.ex(sub)
         if re.fullmatch(r'__t\d+', s.strip()):
             return s
+        if re.fullmatch(r'\(&\(([\w.>\-]|\(\*\w+\))+\)\.e\[1\]\)', s.strip()):
+            return s      # end() of a single-key map view over a plain lvalue: a pure address, needs no temporary
         return self.hoist(t, s)
 
     # ---- calls are in cxx2c_call.py
